@@ -301,6 +301,13 @@ class Interp:
             raise _BranchExit()
 
     def st_Assign(self, s, cc):
+        # x[k] = x[k] + c   is the element update   x[k] += c
+        if len(s.targets) == 1 and isinstance(s.targets[0], ast.Subscript) and isinstance(s.value, ast.BinOp):
+            t_txt = src(s.targets[0])
+            if src(s.value.left) == t_txt:
+                return self.st_AugAssign(ast.copy_location(ast.AugAssign(target=s.targets[0], op=s.value.op, value=s.value.right), s), cc)
+            if isinstance(s.value.op, (ast.Add, ast.Mult)) and src(s.value.right) == t_txt:
+                return self.st_AugAssign(ast.copy_location(ast.AugAssign(target=s.targets[0], op=s.value.op, value=s.value.left), s), cc)
         v = self.eval(s.value, cc)
         for t in s.targets:
             self.assign(t, v, cc, s)
